@@ -276,10 +276,12 @@ def features(case, model):
         if start > 0: f.append('re-entry-at-saved-offset')
         if ifull and nxt == lc: f.append('indices-full-at-window-end')
         if esc and not cand and not last: f.append('window-ends-inside-quoted-cell')
-        if cand and not last: f.append('window-ends-between-two-quotes')
         if nxt == lc and not last and not ifull and not vfull: f.append('window-ends-exactly-at-record-end')
-        if not last and lc > 0 and chunk + lc - 1 < len(t) and t[chunk + lc - 1] == '"' and esc:
+        if not last and lc > 0 and chunk + lc < len(t) and t[chunk + lc - 1] == '"' and esc:
             f.append('quote-is-last-byte-of-window')
+            # the kernel cannot tell which of the two it is (`index + 1 == len(source)`: retry in next chunk)
+            f.append('window-ends-between-the-two-quotes-of-an-escaped-quote' if t[chunk + lc] == '"'
+                     else 'window-ends-right-after-closing-quote')
         if rows == 0 and k > 0: f.append('call-completes-no-record')
         if (vfull or ifull) and rows == 0 and k > 0: f.append('full-before-any-newline')
     f = sorted(set(f))
@@ -460,7 +462,9 @@ def gen(tier, rng):
            'a,b', 'a,b\n', '\n', 'a,b\n\n\n', 'a,b\n"",""\n"']
     for t in bad:
         for crs in (1, 2, 3, 10):
-            yield text_case('drv', t, crs, ['a', 'b'])
+            c = text_case('drv', t, crs, ['a', 'b'])
+            c.pop('exp', None)          # not well-formed RFC-4180 (csv.reader is more lenient): no expectation
+            yield c
     for (r, c) in [(1, 2), (2, 1)]:
         hdr = HDRS[c]
         for cells in itertools.product(['a', 'abcd', '"', 'x\ny'], repeat=r * c):
